@@ -80,7 +80,7 @@ def lock_pid(c, i):
     from pyvc.engine import cur
     d = c.f['$dirs']
     cur().ikey(i, 'pack')
-    return FS.PathVal(d.packs.base, d.packs.parts + (SStr(EM.intstr_term(i)) + '.lock',)).pid()
+    return FS.PathVal(d.packs.base, d.packs.parts + (SStr(EM.lockname_term(i)),)).pid()
 
 
 def pack_data(w, c, i):
